@@ -192,7 +192,10 @@ class PortSend(Contract):
     key = 'C11.send'
     target = P + 'BaseOutput.send'
     properties = ('C11', 'C10')
-    configs = tuple({'closed': c, 'what': w} for c in (False, True) for w in ('message', 'other'))
+    # every kind of message is copied: channel messages, sysex (mutable-looking data), and the data-less real-time and system
+    # common messages, whose only changeable attribute is the time
+    configs = tuple({'closed': c, 'what': w} for c in (False, True)
+                    for w in ('message', 'message:sysex', 'message:clock', 'message:active_sensing', 'message:tune_request', 'message:songpos', 'other'))
     raises = {ValueError: 'closed_port', TypeError: 'not_a_message'}
     symbolic_only = True
 
@@ -205,7 +208,8 @@ class PortSend(Contract):
     def inputs(self, h, cfg):
         from .c_messages import msg_obj
         p = port(h, 'BaseIOPort', closed=cfg['closed'])
-        h.msg = msg_obj(h, 'note_on', time='real') if cfg['what'] == 'message' else 5
+        w = cfg['what']
+        h.msg = msg_obj(h, w.split(':')[1] if ':' in w else 'note_on', time='real') if w.startswith('message') else 5
         return [p, h.msg], {}
 
     def closed_port(self, h, cfg, a, pr):
@@ -218,8 +222,8 @@ class PortSend(Contract):
         from .c_state import unchanged
         from .c_frozen import equal_state
         sends = log_of(h, '_send')
-        out = {'open-port-and-message': (not cfg['closed']) and cfg['what'] == 'message', 'exactly-one-device-send': len(sends) == 1}
-        if len(sends) == 1 and cfg['what'] == 'message':
+        out = {'open-port-and-message': (not cfg['closed']) and cfg['what'].startswith('message'), 'exactly-one-device-send': len(sends) == 1}
+        if len(sends) == 1 and cfg['what'].startswith('message'):
             sent = sends[0][2]
             out['a-copy-is-sent'] = sent is not h.msg and attrs_of(sent) is not attrs_of(h.msg)
             out['the-copy-equals-the-message'] = equal_state(attrs_of(sent), h.attrs0)
